@@ -22,6 +22,7 @@ type Verifier struct {
 	Prog     *ssa.Program
 	Pkgs     map[string]*ssa.Package // by import path
 	Tier     string
+	LevelCap string // evidence level for partial claims ("other"); empty = proof when all discharge
 	Timeout  int // seconds per solver per obligation
 
 	mu          sync.Mutex
